@@ -46,7 +46,10 @@ def own_class_ok(case, res, J, N):
 
 
 def run(ctx: C.Ctx):
-    c05.with_translated_masks(ctx, lambda: _run(ctx))
+    from .. import shapes_static, translate_householder
+    c05.with_translated_masks(ctx, lambda: shapes_static.run_with_translation(
+        ctx, translate_householder, "Householder", "Householder-loop", lambda: _run(ctx),
+        "regenerated from GQR.fit / CCQR.fit: pivot rule on the masked norms, reflector steps, order of the array operations"))
 
 
 def _run(ctx: C.Ctx):
